@@ -29,6 +29,12 @@ const (
 	// The maximum number of mergeScopeDirectives - relocateNamedObjects passes
 	// attempted by the parser to fully resolve static objects.
 	maxResolvePasses = 5
+
+	// The maximum depth of nested scopes, of nested operands and of the
+	// recursion of the parser itself. The parser and every consumer of the
+	// object tree recurse once per nesting level, so an unbounded depth lets a
+	// table exhaust the stack (one level costs a single byte of AML).
+	maxNestingDepth = 1024
 )
 
 // Parser implements a parser for ACPI Machine Language (AML) bytecode.
@@ -44,6 +50,7 @@ type Parser struct {
 	pkgEndStack []uint32
 	streamEnd   uint32
 
+	nestingDepth     uint32
 	resolvePasses    uint32
 	mergedScopes     uint32
 	relocatedObjects uint32
@@ -167,6 +174,7 @@ func (p *Parser) init(tableHandle uint8, tableName string, header *table.SDTHead
 func (p *Parser) resetState(tableHandle uint8, tableName string) {
 	p.tableHandle = tableHandle
 	p.tableName = tableName
+	p.nestingDepth = 0
 	p.resolvePasses = 0
 	p.mergedScopes = 0
 	p.relocatedObjects = 0
@@ -221,6 +229,11 @@ func (p *Parser) parseNextObject() parseResult {
 
 func (p *Parser) parseObjectArgs(curObj *Object) parseResult {
 	var res parseResult
+
+	if !p.enterNestedLevel() {
+		return parseResultFailed
+	}
+	defer p.leaveNestedLevel()
 
 	// Special case for constants that are used as TermArgs; just read the
 	// value directly into the supplied curObject
@@ -316,6 +329,10 @@ func (p *Parser) parseArg(info *pOpcodeInfo, curObj *Object, argType pArgType) (
 		return nil, parseResultShortCircuit
 	case pArgTypeTermList:
 		// Create a new scope and shortcircuit the arg parser
+		if len(p.scopeStack) >= maxNestingDepth {
+			kfmt.Fprintf(p.errWriter, "[table: %s, offset: 0x%x] scopes are nested more than %d levels deep\n", p.tableName, p.r.Offset(), maxNestingDepth)
+			return nil, parseResultFailed
+		}
 		scope := p.objTree.newObject(pOpIntScopeBlock, p.tableHandle)
 		scope.amlOffset = p.r.Offset()
 		p.scopeEnter(scope.index)
@@ -346,6 +363,11 @@ func (p *Parser) parseArg(info *pOpcodeInfo, curObj *Object, argType pArgType) (
 // stream does not match an existing namepath or method name.
 func (p *Parser) parseNamePathOrMethodCall() parseResult {
 	curOffset := p.r.Offset()
+
+	if !p.enterNestedLevel() {
+		return parseResultFailed
+	}
+	defer p.leaveNestedLevel()
 
 	pathExpr, res := p.parseNameString()
 	if res != parseResultOk {
@@ -984,6 +1006,39 @@ func (p *Parser) nextOpcode() (uint16, parseResult) {
 	return op, parseResultOk
 }
 
+// enterNestedLevel accounts for one more level of recursion of the parser and
+// reports whether that level is still within maxNestingDepth.
+func (p *Parser) enterNestedLevel() bool {
+	if p.nestingDepth >= maxNestingDepth {
+		kfmt.Fprintf(p.errWriter, "[table: %s, offset: 0x%x] objects are nested more than %d levels deep\n", p.tableName, p.r.Offset(), maxNestingDepth)
+		return false
+	}
+
+	p.nestingDepth++
+	return true
+}
+
+func (p *Parser) leaveNestedLevel() {
+	p.nestingDepth--
+}
+
+// nestedDeeperThan reports whether the sub-tree below obj has more than
+// maxLevels levels. It gives up as soon as the answer is known, so it never
+// recurses deeper than maxLevels.
+func (p *Parser) nestedDeeperThan(obj *Object, maxLevels uint32) bool {
+	if maxLevels == 0 {
+		return true
+	}
+
+	for argIndex := obj.firstArgIndex; argIndex != InvalidIndex; argIndex = p.objTree.ObjectAt(argIndex).nextSiblingIndex {
+		if p.nestedDeeperThan(p.objTree.ObjectAt(argIndex), maxLevels-1) {
+			return true
+		}
+	}
+
+	return false
+}
+
 // scopeCurrent returns the currently active scope.
 func (p *Parser) scopeCurrent() *Object {
 	return p.objTree.ObjectAt(p.scopeStack[len(p.scopeStack)-1])
@@ -1466,6 +1521,12 @@ func (p *Parser) attachSiblingsAsArgs(parentObj, targetObj *Object, numArgs uint
 		// Update siblingIndex before siblingObj gets detached
 		siblingObj = p.objTree.ObjectAt(siblingIndex)
 		siblingIndex = siblingObj.nextSiblingIndex
+
+		// The operands of an operand of an operand ... must not nest without bound
+		if p.nestedDeeperThan(siblingObj, maxNestingDepth) {
+			kfmt.Fprintf(p.errWriter, "[table: %s, offset: 0x%x] arguments of opcode %s are nested more than %d levels deep\n", p.tableName, targetObj.amlOffset, pOpcodeName(targetObj.opcode), maxNestingDepth)
+			return parseResultFailed
+		}
 
 		// siblingObj may be a sibling of parentObj (useParentSiblings); always
 		// detach it from the object that actually lists it.
